@@ -4,6 +4,7 @@ package main
 // dominance, post-dominance, loops, instruction-level path search.
 
 import (
+	"go/token"
 	"golang.org/x/tools/go/ssa"
 )
 
@@ -290,4 +291,30 @@ func withAnon(fn *ssa.Function) []*ssa.Function {
 		out = append(out, withAnon(a)...)
 	}
 	return out
+}
+
+// selectCaseBlock returns the block entered when case k of sel fires.
+func selectCaseBlock(sel *ssa.Select, k int) *ssa.BasicBlock {
+	for _, r := range *sel.Referrers() {
+		ex, ok := r.(*ssa.Extract)
+		if !ok || ex.Index != 0 {
+			continue
+		}
+		for _, rr := range *ex.Referrers() {
+			bo, ok := rr.(*ssa.BinOp)
+			if !ok || bo.Op != token.EQL {
+				continue
+			}
+			cst, ok := bo.Y.(*ssa.Const)
+			if !ok || cst.Value == nil || cst.Int64() != int64(k) {
+				continue
+			}
+			for _, u := range *bo.Referrers() {
+				if iff, ok := u.(*ssa.If); ok {
+					return iff.Block().Succs[0]
+				}
+			}
+		}
+	}
+	return nil
 }
